@@ -11,6 +11,9 @@ def run(tier):
     child.merge(r, res['recorder'])
     if res['rc'] != 0:
         r.broken.append('C14 monitors child failed (rc=%s) at %s: %s' % (res['rc'], res['progress'], res['stderr'][-1500:]))
+    r.assumptions += ['c_var2h#average: products and quotients of non-constant reals are uninterpreted functions (rmul commutative): the code is compared with the ghost integral structurally; sound, and the integral itself is defined with the same operations',
+                      'c_var2h#average: time stamps non-decreasing, origin inside the data, maxgapsec >= 0 are preconditions; the statement is over the reals (no rounding)',
+                      'that the ghost trap(k, i) - the trapezoid on the clipped interval - is the integral of the linear interpolant there is the (exact) trapezoid rule for a linear function: stated, not mechanised']
     r.explanation = ('proved (Engine C): memory safety, no integer overflow and termination of c_var2h for every series; under the contract '
                      'c_var2h#average (sorted stamps, hstart inside the data) every value but the last is missing or the exact period '
                      'average / rainfall total of the interpolant (doubles read as reals, products compared structurally), and a missing '
